@@ -286,12 +286,15 @@ func init() {
 	}
 	// hist <n> <ops>   '/'-separated:
 	//   D<nonces>[@f]  proposalsForExecution          -> s:<nonces> | e
-	//   S<id>[@f] / F<id>[@f]  outcome of the execution started by delivery #id recorded (executed / failed) -> d
+	//   S<id>[=<nonces>][@f] / F…  outcome of the execution started by delivery #id recorded (executed / failed); with
+	//                  =<nonces> only of the resource group holding these nonces (Execute runs one session per resource) -> d
 	//   T<id>          that execution never gets its signatures: the real watchExecution runs into its signing
 	//                  time-out (nothing is recorded) -> d
 	//   R<nonces>[@f]  FilterDeposits over deposits with these nonces (all matching the request) -> r:<nonces>
 	//   an operation that would block on propMutex -> hang (not called)
 	//   => per op `<result>~<statuses of nonces 0..n-1>`, '/'-separated, then `#free|held`
+	// histstrict: the same run, judged by the Lean driver against the property AS STATED (no sequentiality proviso)
+	ops["C17.histstrict"] = func(a []string) string { return ops["C17.hist"](a) }
 	ops["C17.hist"] = func(a []string) string {
 		n := int(u64(a[0]))
 		b := newC3Btc("-")
@@ -325,24 +328,26 @@ func init() {
 					res = "hang"
 					break
 				}
-				id := int(u64(arg))
+				id, grp := c17IdGroup(arg)
 				st := store.ExecutedProp
 				if op[0] == 'F' {
 					st = store.FailedProp
 				}
 				if id < len(started) {
-					b.exe.VerifC17StoreProposalsStatus(started[id], st)
-					started[id] = nil
+					var mine []*btcExecutor.BtcTransferProposal
+					mine, started[id] = c17SplitGroup(started[id], grp)
+					b.exe.VerifC17StoreProposalsStatus(mine, st)
 				}
 			case 'T':
-				// the watcher of that execution never gets its signatures: the REAL signing time-out path runs
-				if id := int(u64(arg)); id < len(started) {
-					if started[id] != nil {
-						if r := c17Timeout(b.exe, started[id]); r != "t" {
+				// the watcher of that group never gets its signatures: the REAL signing time-out path runs
+				if id, grp := c17IdGroup(arg); id < len(started) {
+					var mine []*btcExecutor.BtcTransferProposal
+					mine, started[id] = c17SplitGroup(started[id], grp)
+					if mine != nil {
+						if r := c17Timeout(b.exe, mine); r != "t" {
 							res = r
 						}
 					}
-					started[id] = nil
 				}
 			case 'R':
 				ds := []c17Dep{}
@@ -396,6 +401,32 @@ func init() {
 }
 
 var _ = errors.New
+
+// `<id>` or `<id>=<nonces>`: a whole delivery, or the resource group of it holding these nonces
+func c17IdGroup(arg string) (int, map[uint64]bool) {
+	f := strings.SplitN(arg, "=", 2)
+	id := int(u64(f[0]))
+	if len(f) == 1 {
+		return id, nil
+	}
+	grp := map[uint64]bool{}
+	for _, n := range c3Nonces(joinOr1(f[1])) {
+		grp[n] = true
+	}
+	return id, grp
+}
+
+// the proposals of `ps` in the group (nil group = all), and the rest
+func c17SplitGroup(ps []*btcExecutor.BtcTransferProposal, grp map[uint64]bool) (mine, rest []*btcExecutor.BtcTransferProposal) {
+	for _, p := range ps {
+		if grp == nil || grp[p.Data.DepositNonce] {
+			mine = append(mine, p)
+		} else {
+			rest = append(rest, p)
+		}
+	}
+	return
+}
 
 func c17Faults(g *G, n int, oneIn int) string {
 	var fl strings.Builder
@@ -532,7 +563,21 @@ func genC17(g *G) {
 			case c < 7 && deliveries > 0:
 				id := g.Intn(deliveries)
 				kind := "SSFFT"[g.Intn(5)]
-				for _, x := range inflight[id] {
+				// Execute runs one session per resource: often only one group (nonces of one parity) concludes
+				grp, rest, arg := inflight[id], []int(nil), itoa(id)
+				if g.Intn(2) == 0 && len(inflight[id]) > 0 {
+					par := inflight[id][g.Intn(len(inflight[id]))] % 2
+					grp = nil
+					for _, x := range inflight[id] {
+						if x%2 == par {
+							grp = append(grp, x)
+						} else {
+							rest = append(rest, x)
+						}
+					}
+					arg += "=" + c17Ints(grp)
+				}
+				for _, x := range grp {
 					switch kind {
 					case 'S':
 						status[x] = 'e'
@@ -540,11 +585,15 @@ func genC17(g *G) {
 						status[x] = 'f'
 					}
 				}
-				delete(inflight, id)
-				if kind == 'T' {
-					opsl = append(opsl, "T"+itoa(id))
+				if len(rest) > 0 {
+					inflight[id] = rest
 				} else {
-					opsl = append(opsl, string(kind)+itoa(id)+f)
+					delete(inflight, id)
+				}
+				if kind == 'T' {
+					opsl = append(opsl, "T"+arg)
+				} else {
+					opsl = append(opsl, string(kind)+arg+f)
 				}
 			default:
 				ns := []int{}
@@ -596,6 +645,26 @@ func genC17(g *G) {
 				g.Emit("hist", "3", setup+"/D"+del+"@"+c3SingleFault(g, k)+"/R0,1,2/D0,1,2")
 			}
 		}
+	}
+	// ---- a delivery over two resources: the groups are signed, sent and recorded independently
+	for _, o1 := range []string{"S0=0", "F0=0", "T0=0"} {
+		for _, o2 := range []string{"S0=1", "F0=1", "T0=1", "S0=1@1"} {
+			g.Emit("hist", "3", "D0,1,2/"+o1+"/R0,1,2/"+o2+"/D0,1,2/S0=2/R0,1,2/D0,1,2")
+			g.Emit("hist", "3", "D0,1/"+o2+"/"+o1+"/R0,1/D0,1")
+		}
+	}
+	// ---- KNOWN FINDING C17-overlap-late-failure: a retry releases a deposit whose execution is still in flight; it is
+	//      delivered again; one execution succeeds and the other one fails LATER: the failure overwrites `executed`.
+	//      Judged strictly as `histstrict` (reported as known), and again as `hist` (sequentiality proviso) so that
+	//      every other deviation on the same inputs is still reported.
+	for _, ns := range []string{"0", "1", "0,1", "1,2"} {
+		for _, tail := range []string{"S0/F1", "S1/F0", "S0/T1", "S1/T0", "F0/S1", "F1/S0", "S0/F1/R0,1,2/D0,1,2"} {
+			h := "D" + ns + "/R" + ns + "/D" + ns + "/" + tail
+			g.Emit("histstrict", "3", h)
+			g.Emit("hist", "3", h)
+		}
+		g.Emit("histstrict", "3", "D"+ns+"/S0/R"+ns+"/D"+ns)
+		g.Emit("histstrict", "3", "D"+ns+"/F0/R"+ns+"/D"+ns+"/S1/R"+ns+"/D"+ns)
 	}
 	// ---- a stale session: released by a retry while stuck, re-delivered, executed by the newer session; then the
 	//      old watcher runs into its signing time-out (real code path). Any later retry / delivery must leave the
